@@ -930,7 +930,28 @@ func runC11(res *Result, rng *RNG, tier string, outDir string) {
 		if capped {
 			continue
 		}
-		switch r.Intn(6) {
+		// the same for every later block: its world is the authority-level fixpoint plus its own
+		// facts, closed under its own rules
+		type blockNeed struct{ facts, rounds int }
+		var bneeds []blockNeed
+		for _, blk := range sc.Token[1:] {
+			bw, br, _, bcap := refClosure(append(append([]SPred{}, ref.facts...), blk.Facts...), blk.Rules, 900)
+			if bcap {
+				bneeds = nil
+				break
+			}
+			bneeds = append(bneeds, blockNeed{len(bw.facts), br})
+		}
+		grid := r.Intn(6)
+		if len(bneeds) > 0 && r.Chance(40) {
+			// place the fact limit relative to a later block's need
+			bn := bneeds[r.Intn(len(bneeds))]
+			if bn.facts > need {
+				sc.MaxF = bn.facts + r.Intn(2) - r.Intn(2)
+				grid = 5
+			}
+		}
+		switch grid {
 		case 0:
 			sc.MaxF = need // at the limit: >= maxFacts errors
 		case 1:
@@ -990,6 +1011,19 @@ func runC11(res *Result, rng *RNG, tier string, outDir string) {
 			}
 			if need < sc.MaxF && rounds+1 > sc.MaxI && !strings.HasPrefix(v.Class, "runerror") {
 				res.Violate("iteration-limit-ignored", fmt.Sprintf("fixpoint needs %d rounds > maxIterations %d but Authorize returned %s", rounds+1, sc.MaxI, v.Class), rep)
+			}
+			// a limit hit while a LATER block is evaluated must be reported as that limit too
+			if need < sc.MaxF && rounds+1 <= sc.MaxI {
+				for bi, bn := range bneeds {
+					if bn.facts >= sc.MaxF || bn.rounds+1 > sc.MaxI {
+						if bn.facts >= sc.MaxF && bn.rounds+1 <= sc.MaxI && v.Class != "runerror:EMaxFacts" {
+							res.Violate("block-fact-limit-not-distinguishable", fmt.Sprintf("block %d's world has %d facts >= maxFacts %d but Authorize returned %s (raw error %q): the limit error must be recognisable with errors.Is", bi+1, bn.facts, sc.MaxF, v.Class, v.Raw), rep)
+						} else if !strings.HasPrefix(v.Class, "runerror") {
+							res.Violate("block-limit-ignored", fmt.Sprintf("block %d exceeds a limit (facts %d / maxFacts %d, rounds %d / maxIterations %d) but Authorize returned %s", bi+1, bn.facts, sc.MaxF, bn.rounds+1, sc.MaxI, v.Class), rep)
+						}
+						break
+					}
+				}
 			}
 			if v.Class == "success" || v.Class == "denied" || v.Class == "nomatch" || v.Class == "checks" {
 				// no silent truncation: the world must be the least model
